@@ -3,7 +3,6 @@ package pgsql
 import (
 	"bytes"
 	"encoding/json"
-	"strconv"
 	"strings"
 
 	"reflect"
@@ -70,8 +69,13 @@ func DeletedPropertiesToString(properties *graph.Properties) string {
 	deleted := properties.DeletedProperties()
 	quoted := make([]string, 0, len(deleted))
 
+	// Elements of an array literal are double quoted; inside the quotes the array syntax knows exactly one escape: a
+	// backslash makes the next character literal. Go escape sequences (strconv.Quote: \n, \t, \x01, \u00a0) are not
+	// understood - the parser would read the letter after the backslash.
+	elementEscaper := strings.NewReplacer(`\`, `\\`, `"`, `\"`)
+
 	for _, prop := range deleted {
-		quoted = append(quoted, strconv.Quote(prop))
+		quoted = append(quoted, `"`+elementEscaper.Replace(prop)+`"`)
 	}
 
 	return "{" + strings.Join(quoted, ",") + "}"
